@@ -182,6 +182,7 @@ func runFaultStream(seed int64, n int, out, backendSpec, tier string) *RunReport
 					targets = append(targets, &Op{Kind: "Update", Q: QSpec{Coll: c, Steps: []QStep{{Kind: "where", C: &Crit{Kind: "cmp", Op: "OLt", Field: fld, Val: Operand{Lit: int(100)}}}, {Kind: "sort", Opts: []SortOpt{{fld, -1}}}}}, KVs: map[string]interface{}{"zq": int64(1)}})
 					break
 				}
+				targets = append(targets, &Op{Kind: "Count", Q: QSpec{Coll: c}})
 				targets = append(targets, &Op{Kind: "DropCollection", Coll: c})
 				break
 			}
